@@ -231,7 +231,13 @@ func (f Fn) decl() string {
 			target = "t." + f.Name
 		}
 		wps, _ := f.sigNamed(true)
-		fmt.Fprintf(&sb, "func %sw%s(%s)%s {\n\treturn %s(%s)\n}\n\n", recv, f.Name, wps, rs, target, strings.Join(args, ", "))
+		// the wrapper first declares a function literal with another number of results: what it forwards is still
+		// its own callee's result list
+		lit := "func() (int, int, int, int) {\n\t\treturn 1, 2, 3, 4\n\t}"
+		if len(f.Results) == 4 || len(f.Name)%2 == 0 {
+			lit = "func(a int) {\n\t}"
+		}
+		fmt.Fprintf(&sb, "func %sw%s(%s)%s {\n\tlit := %s\n\t_ = lit\n\treturn %s(%s)\n}\n\n", recv, f.Name, wps, rs, lit, target, strings.Join(args, ", "))
 	}
 	return sb.String()
 }
